@@ -503,6 +503,15 @@ func cmdCheck(args []string) int {
 			}
 		}
 	}
+	auditRecords = nil
+	if *tier == "thorough" {
+		recs, failed := runAudits(outDir)
+		auditRecords = recs
+		if failed != "" {
+			writeEvidence(vd, *prop, *tier, seed, cfg, results, obs, time.Since(t0).Seconds(), "assumption audit failed", knownHit)
+			return undecided("an assumption audit failed (an assumed library contract or axiom does not describe the real library): " + oneLine(failed))
+		}
+	}
 	writeEvidence(vd, *prop, *tier, seed, cfg, results, obs, time.Since(t0).Seconds(), "", knownHit)
 	nd := 0
 	for _, o := range obs {
@@ -548,3 +557,6 @@ func containsStr(xs []string, x string) bool {
 
 // replayRegression: per known-findings entry of the property, what its witness did on the real code (thorough tier).
 var replayRegression []map[string]interface{}
+
+// auditRecords: the bounded assumption audits run in this (thorough) run.
+var auditRecords []map[string]interface{}
